@@ -70,7 +70,7 @@ CHECKS = {
             "Reference is the protocol text of the property; display composition is compared per model only.", "DESIGN.md 3/C15"),
     "C16": ("fault_enumeration",
             "record-by-record comparison of the observed future of the original machine and of a freshly constructed machine that loaded the snapshot, with the snapshot taken at EVERY step boundary of seeded runs of the real PCE500Emulator and CoreRuntime; metamorphic no-perturbation run; cross-model load of every 3rd snapshot; registers.bin decoded against live registers",
-            "Held (modulo listed findings) for every step boundary as snapshot point of 64 (quick) / 640 (thorough) seeded runs per model (running, halted, powered off, inside handlers, pending/masked requests, keys held, FIFO non-empty, mid-subroutine) x K=30/45 further steps and inputs: registers, all IMEM bytes, RAM, stack, LCD registers+VRAM, KIL/FIFO, ISR/IMR, power state identical at every step; saving never perturbed the original; each model loaded the other's files into the same observable state.",
+            "Held (modulo listed findings) for every step boundary as snapshot point of 64 (quick) / 320 (thorough) seeded runs per model (running, halted, powered off, inside handlers, pending/masked requests, keys held, FIFO non-empty, mid-subroutine) x K=30/45 further steps and inputs: registers, all IMEM bytes, RAM, stack, LCD registers+VRAM, KIL/FIFO, ISR/IMR, power state identical at every step; saving never perturbed the original; each model loaded the other's files into the same observable state.",
             "Continuations are bounded (K steps); bookkeeping-only fields (counters, last source) are counted, not judged.", "DESIGN.md 3/C16"),
     "C17": ("other",
             "complete comparison of live tables dumped from the running Python modules and the real Rust crate + behavioural recovery of private tables by executed probes on both cores",
